@@ -95,6 +95,18 @@ fn c10_tail_40() {
     tail_rule::<40>();
 }
 
+/// b[i] = a[i] for i < cut except the length field (own function: its loop gets its own unwind
+/// bound through --unwindset)
+fn splice<const N: usize>(a: &[u8; N], b: &mut [u8; N], cut: usize) {
+    let mut i = 0;
+    while i < N {
+        if i < cut && i != 2 && i != 3 {
+            b[i] = a[i];
+        }
+        i += 1;
+    }
+}
+
 /// Replacing the bytes after the first integrity attribute never changes what is exposed before
 /// it: two buffers that agree up to the end of the first integrity attribute of the first one.
 fn two_buffers<const N: usize>() {
@@ -120,13 +132,7 @@ fn two_buffers<const N: usize>() {
     let cut = ra.off[s] + 4 + pad4(ra.alen[s]);
     kani::assume(lb >= cut);
     // b agrees with a up to `cut` except for the length field (its tail may differ in size)
-    let mut i = 0;
-    while i < N {
-        if i < cut && i != 2 && i != 3 {
-            b[i] = a[i];
-        }
-        i += 1;
-    }
+    splice(&a, &mut b, cut);
     let db = &b[..lb];
     let ma = Message::from_bytes(da);
     let mb = Message::from_bytes(db);
